@@ -421,6 +421,35 @@ def run(ctx):
                                 '%s.%s decides whether the key exists by looking at the value found (`%s`): a stored None (or other falsy value) is '
                                 'reported as a missing key although get_all_keys lists it - the recording does not read back as it was stored' % (
                                     c_.name, nm, norm(cnd)[:80])))
+    # ---------------- C07.i the id a recording is fetched under is the id it was saved under: fetch methods use their id parameter as given
+    ci7 = res.clause('C07.i', 'R-PROV', 'fetch methods use the recording id as given (never rewritten before the location is computed)', floor=3)
+    for c_ in [repo.cls('TapeCassette')] + repo.subclasses('TapeCassette'):
+        for nm in ('get_recording', 'get_recording_metadata'):
+            g_ = c_.methods.get(nm)
+            if g_ is None or len(g_.params) < 2 or all(isinstance(x, (ast.Raise, ast.Expr, ast.Pass)) for x in g_.node.body):
+                continue
+            idp = g_.params[1]
+            rebinds = [n for n in walk_own(g_.node) if isinstance(n, ast.Name) and n.id == idp and isinstance(n.ctx, (ast.Store, ast.Del))]
+            ci7.instance('%s.%s keeps its id parameter `%s`' % (c_.name, nm, idp), g_.qualname, not rebinds)
+            ci7.evaluations += 1
+            for n in rebinds[:1]:
+                res.add(Finding('C07', 'C07.i', 'R-PROV', g_.file, g_.qualname, n.lineno, 'id parameter `%s` rewritten' % idp,
+                                '%s.%s rewrites the id it was asked for before looking the recording up, the save path does not: an id that was saved is '
+                                'not found under its own name, and an id that was never saved returns another recording' % (c_.name, nm)))
+    # ---------------- C07.j a fetched recording reports every key it holds
+    cj7 = res.clause('C07.j', 'R-AGREE', 'get_all_keys lists every stored key (no filtering)', floor=1)
+    for c_ in [repo.cls('Recording')] + repo.subclasses('Recording'):
+        gk = c_.methods.get('get_all_keys')
+        if gk is None or all(isinstance(x, (ast.Raise, ast.Expr, ast.Pass)) for x in gk.node.body):
+            continue
+        filt = [n for n in ast.walk(gk.node) if (isinstance(n, ast.comprehension) and n.ifs) or isinstance(n, (ast.If, ast.IfExp)) or
+                (isinstance(n, ast.Call) and isinstance(n.func, ast.Name) and n.func.id == 'filter')]
+        cj7.instance('%s.get_all_keys returns the keys of the stored data unfiltered' % c_.name, gk.qualname, not filt)
+        cj7.evaluations += 1
+        for n in filt[:1]:
+            res.add(Finding('C07', 'C07.j', 'R-AGREE', gk.file, gk.qualname, getattr(n, 'lineno', gk.node.lineno), 'filtered key listing',
+                            '%s.get_all_keys leaves out some of the keys the recording holds: what a fetched recording reports is a strict subset of what '
+                            'was stored (get_data still answers for the hidden keys)' % c_.name))
     return res
 
 
